@@ -6,14 +6,14 @@
 #include "vx_close.h"
 using namespace xercesc;
 extern int vx_seq, vx_file_at, vx_url_at, vx_open_at; extern const void* vx_opened; extern const XMLCh* vx_file_base; extern const XMLCh* vx_file_rel; extern const XMLCh* vx_last_sysid;
-extern bool vx_seturl_ok, vx_relative, vx_invalidchar, vx_open_null;
+extern const XMLCh* vx_seturl_base; extern bool vx_seturl_ok, vx_relative, vx_invalidchar, vx_open_null;
 static VxRaw<XMLReader> g_reader;
 extern "C" {
 void vx_removeChar(const XMLCh* src, const XMLCh&, XMLBuffer& dst) asm("_ZN11xercesc_4_09XMLString10removeCharEPKDsRS1_RNS_9XMLBufferE");
 void vx_removeChar(const XMLCh* src, const XMLCh&, XMLBuffer& dst) { dst.set(src); }                     // the system id contains no 0xFFFF marker here
 void vx_url_ctor(void*, void*) asm("_ZN11xercesc_4_06XMLURLC1EPNS_13MemoryManagerE");  void vx_url_ctor(void*, void*) {}
 void vx_url_dtor(void*) asm("_ZN11xercesc_4_06XMLURLD1Ev");  void vx_url_dtor(void*) {}
-bool vx_setURL(void*, const XMLCh*, const XMLCh*, void*) asm("_ZN11xercesc_4_06XMLURL6setURLEPKDsS2_RS0_");  bool vx_setURL(void*, const XMLCh*, const XMLCh*, void*) { return vx_seturl_ok; }
+bool vx_setURL(void*, const XMLCh*, const XMLCh*, void*) asm("_ZN11xercesc_4_06XMLURL6setURLEPKDsS2_RS0_");  bool vx_setURL(void*, const XMLCh* base, const XMLCh*, void*) { vx_seturl_base = base; return vx_seturl_ok; }
 bool vx_isRelative(const void*) asm("_ZNK11xercesc_4_06XMLURL10isRelativeEv");  bool vx_isRelative(const void*) { return vx_relative; }
 bool vx_hasInvalidChar(const void*) asm("_ZNK11xercesc_4_06XMLURL14hasInvalidCharEv");  bool vx_hasInvalidChar(const void*) { return vx_invalidchar; }
 void vx_normalizeURI(const XMLCh* s, XMLBuffer& out) asm("_ZN11xercesc_4_06XMLUri12normalizeURIEPKDsRNS_9XMLBufferE");  void vx_normalizeURI(const XMLCh* s, XMLBuffer& out) { out.set(s); }
